@@ -405,6 +405,10 @@ pub const SVG_URI: &str = "data:image/svg+xml;base64,PHN2ZyB4bWxucz0iaHR0cDovL3d
 pub enum ImageSpec {
     Png,
     Svg,
+    /// a real file (path private to the calling thread) that holds logo number `v % 3` whenever
+    /// a render looks at it; its size and modification time never change, only its bytes do.
+    /// Raster renders only: the path itself is part of the SVG text.
+    File(u8),
     /// `pad` characters of filler (SVG text only; lets a run hit an exact file size)
     Filler(usize),
     Raw(String),
@@ -415,6 +419,7 @@ impl ImageSpec {
         match self {
             ImageSpec::Png => PNG_1X1.to_string(),
             ImageSpec::Svg => SVG_URI.to_string(),
+            ImageSpec::File(_) => logo_path(),
             ImageSpec::Filler(n) => {
                 let mut s = String::with_capacity(*n);
                 for i in 0..*n {
@@ -427,8 +432,50 @@ impl ImageSpec {
     }
     /// Safe to hand to the raster path (usvg must be able to parse the document).
     pub fn raster_safe(&self) -> bool {
-        matches!(self, ImageSpec::Png | ImageSpec::Svg)
+        matches!(self, ImageSpec::Png | ImageSpec::Svg | ImageSpec::File(_))
     }
+}
+
+/// Three 4x4 PNG logos of equal byte length (red, green, blue): contents of a file-backed image option.
+pub const LOGOS: [&[u8]; 3] = [
+    &[137, 80, 78, 71, 13, 10, 26, 10, 0, 0, 0, 13, 73, 72, 68, 82, 0, 0, 0, 4, 0, 0, 0, 4, 8, 2, 0, 0, 0, 38, 147, 9, 41, 0, 0, 0, 16, 73, 68, 65, 84, 120, 218, 99, 184, 35, 34, 2, 71, 12, 196, 113, 0, 179, 67, 16, 65, 154, 33, 158, 232, 0, 0, 0, 0, 73, 69, 78, 68, 174, 66, 96, 130],
+    &[137, 80, 78, 71, 13, 10, 26, 10, 0, 0, 0, 13, 73, 72, 68, 82, 0, 0, 0, 4, 0, 0, 0, 4, 8, 2, 0, 0, 0, 38, 147, 9, 41, 0, 0, 0, 16, 73, 68, 65, 84, 120, 218, 99, 16, 217, 162, 1, 71, 12, 196, 113, 0, 133, 3, 15, 1, 255, 6, 206, 61, 0, 0, 0, 0, 73, 69, 78, 68, 174, 66, 96, 130],
+    &[137, 80, 78, 71, 13, 10, 26, 10, 0, 0, 0, 13, 73, 72, 68, 82, 0, 0, 0, 4, 0, 0, 0, 4, 8, 2, 0, 0, 0, 38, 147, 9, 41, 0, 0, 0, 16, 73, 68, 65, 84, 120, 218, 99, 144, 179, 121, 6, 71, 12, 196, 113, 0, 251, 195, 20, 1, 224, 210, 145, 176, 0, 0, 0, 0, 73, 69, 78, 68, 174, 66, 96, 130],
+];
+
+/// The calling thread's logo file (created on first use under /dev/shm, or the temp directory).
+pub fn logo_path() -> String {
+    thread_local! {
+        static PATH: std::cell::RefCell<Option<String>> = const { std::cell::RefCell::new(None) };
+    }
+    PATH.with(|p| {
+        let mut p = p.borrow_mut();
+        if p.is_none() {
+            static N: std::sync::atomic::AtomicU64 = std::sync::atomic::AtomicU64::new(0);
+            let base = if std::path::Path::new("/dev/shm").is_dir() { "/dev/shm".to_string() } else { std::env::temp_dir().to_string_lossy().to_string() };
+            let dir = format!("{}/fqv-logos-{}", base, std::process::id());
+            let _ = std::fs::create_dir_all(&dir);
+            let n = N.fetch_add(1, std::sync::atomic::Ordering::SeqCst);
+            *p = Some(format!("{}/logo-{}.png", dir, n));
+        }
+        p.clone().unwrap()
+    })
+}
+
+/// Makes the calling thread's logo file hold logo `v`, with the same length and the same
+/// modification time as ever (1 January 2020): nothing but its bytes tells versions apart.
+pub fn prepare_logo(v: u8) {
+    let path = logo_path();
+    let _ = std::fs::write(&path, LOGOS[(v % 3) as usize]);
+    if let Ok(f) = std::fs::OpenOptions::new().write(true).open(&path) {
+        let t = std::time::UNIX_EPOCH + std::time::Duration::from_secs(1_577_836_800);
+        let _ = f.set_modified(t);
+    }
+}
+
+pub fn remove_logo_dir() {
+    let base = if std::path::Path::new("/dev/shm").is_dir() { "/dev/shm".to_string() } else { std::env::temp_dir().to_string_lossy().to_string() };
+    let _ = std::fs::remove_dir_all(format!("{}/fqv-logos-{}", base, std::process::id()));
 }
 
 #[derive(Clone, Debug, PartialEq, Serialize, Deserialize)]
